@@ -319,7 +319,7 @@ func genDelta() *rapid.Generator[string] {
 
 // genTopo draws a topology. custom: allow the bls12-377-only custom gates.
 // maxLogN bounds the number of instances (cost control).
-func genTopo(custom bool, maxLogN int) *rapid.Generator[Topo] {
+func genTopo(custom bool, minLogN, maxLogN int) *rapid.Generator[Topo] {
 	return rapid.Custom(func(rt *rapid.T) Topo {
 		var t Topo
 		nIn := rapid.IntRange(1, 3).Draw(rt, "n_inputs")
@@ -331,7 +331,7 @@ func genTopo(custom bool, maxLogN int) *rapid.Generator[Topo] {
 		// rare (rapid favours the first entries of a list, so the 0 sits in the middle)
 		logNs := []int{}
 		for r := 0; r < 3; r++ {
-			for k := 1; k <= maxLogN; k++ {
+			for k := minLogN; k <= maxLogN; k++ {
 				logNs = append(logNs, k)
 			}
 			if r == 1 {
@@ -378,6 +378,10 @@ func genTopo(custom bool, maxLogN int) *rapid.Generator[Topo] {
 						in[k] = len(t.Wires) - 1
 					} else {
 						in[k] = rapid.IntRange(0, len(t.Wires)-1).Draw(rt, "operand")
+					}
+					// repeated operands (x*x) are wanted, but not in most gates
+					if k > 0 && in[k] == in[k-1] && len(t.Wires) > 1 && rapid.IntRange(0, 3).Draw(rt, "allow-repeat") != 0 {
+						in[k] = (in[k] + 1 + rapid.IntRange(0, len(t.Wires)-2).Draw(rt, "other")) % len(t.Wires)
 					}
 				}
 			}
